@@ -17,6 +17,9 @@ TREES = {
     "flat": {"a.txt": b"A", "b b.txt": b"B", "x.tmp": b"tmp", "patterns.lst": b"*.tmp\nsub/\n"},
     "nested": {"a.txt": b"A", "d": DIR, "d/c.txt": b"C", "d/e": DIR, "d/e/f.txt": b"F", "emp": DIR, "patterns.lst": b"*.tmp\n",
                "sub": DIR, "sub/s.txt": b"S"},
+    # folder and file names with the characters XML reserves (a folder's name becomes part of its manifests' names, which the
+    # chain file lists)
+    "xml-special-names": {"Sound R&D": DIR, "Sound R&D/s<1>.txt": b"S", "it's \"q\"": DIR, "it's \"q\"/x.txt": b"X", "a&b.txt": b"A"},
 }
 CREATOR = [[], ["--author_name", "Jane Doe"], ["--author_email", "jane@example.com"], ["--author_phone", "+1 555 0100"],
            ["--author_role", "DIT"], ["--location", "Stage 5, Munich"], ["--comment", "a <comment> & more"],
